@@ -1,4 +1,4 @@
-"""C20, open finding union-equation-unmapped-child-parameter (and its EquivalencePathRule variant).
+"""C20, finding (repaired by fix FIXHASH_EQ; exit 0 on a tree with the fix) union-equation-unmapped-child-parameter (and its EquivalencePathRule variant).
 
 PYTHONPATH=/repo /venv/bin/python findings/c20_union_unmapped_child_parameter.py   (exit 1 = defect present)
 
